@@ -12,7 +12,7 @@ RULE = ("Hypothesis (program, fault choice, strategy, drive) tuples: program as 
         "handlers in the fault set perform all their actions and then raise; fault choice = Hypothesis subset of "
         "the executed events (indices into the fault-free run) or, for programs with <=16 executed events, EVERY "
         "single fault index in turn ('all-singles'); strategy in {LOG_AND_CONTINUE, WARN_AND_CONTINUE, "
-        "WARN_AND_PAUSE}; drive in {start, bounded runs at fractions of the horizon, steps, mixed}. Oracle: "
+        "WARN_AND_PAUSE}, set with or without an explicit log level and possibly after another strategy; drive in {start, bounded runs at fractions of the horizon, steps, mixed}. Oracle: "
         "metamorphic against the fault-free reference run - continue strategies: identical trace/final clock/ENDED; "
         "pause strategy: STOPPED/STARTED exactly after each failing event, nothing later ran, start() resumes, "
         "concatenated trace identical; step(): returns or raises DSOLError only, simulator STOPPED, event consumed "
@@ -39,6 +39,8 @@ def strategy(tier):
         "mode": st.sampled_from(["subset", "subset", "all-singles"]),
         "fault_idx": st.lists(st.integers(0, 999), min_size=1, max_size=6),
         "strategy": st.sampled_from([1, 2, 3, 3]),
+        "log_level": st.sampled_from([None, None, 50, 10, 0]),
+        "prev_strategy": st.sampled_from([None, 1, 2, 3]),
         "drive": st.sampled_from(["start", "bounded", "step", "mixed"]),
         "cuts": st.lists(st.integers(1, 9), min_size=1, max_size=4),
         "mix": st.lists(st.sampled_from(["step", "run", "step", "start"]), min_size=1, max_size=10),
@@ -60,7 +62,7 @@ def _jt(b, ck):
     return b
 
 
-def _one_run(out, prog, strat, drive, cuts, mix, tag):
+def _one_run(out, prog, strat, drive, cuts, mix, tag, log_level=None, prev=None):
     """run one (program with faults, strategy, drive) on SUT and reference and compare"""
     from pydsol.core.simulator import RunState
     from pydsol.core.utils import DSOLError
@@ -71,7 +73,12 @@ def _one_run(out, prog, strat, drive, cuts, mix, tag):
     h = Harness(prog)
     try:
         h.initialize()
-        h.sim.set_error_strategy(strat)
+        if prev is not None:
+            h.sim.set_error_strategy(prev)          # the strategy may be changed at any time
+        if log_level is None:
+            h.sim.set_error_strategy(strat)
+        else:
+            h.sim.set_error_strategy(strat, log_level)
         # build the command list
         cmds = []
         if drive == "start":
@@ -153,6 +160,10 @@ def run_case(case):
     base.run()
     executed = [t[0] for t in base.model_trace()]
     out.label("clock=" + ck, "strategy=%d" % case["strategy"], "drive=" + case["drive"], "mode=" + case["mode"])
+    if case.get("log_level") is not None:
+        out.label("explicit-log-level")
+    if case.get("prev_strategy") not in (None, case["strategy"]):
+        out.label("strategy-switched")
     if not executed:
         out.label("no-events")
         return out
@@ -170,7 +181,8 @@ def run_case(case):
         out.label("all-singles-exhaustive")
         for k, seq in enumerate(executed):
             prog["faults"] = [seq]
-            _one_run(out, prog, case["strategy"], case["drive"], case["cuts"], case["mix"], "single@%d" % k)
+            _one_run(out, prog, case["strategy"], case["drive"], case["cuts"], case["mix"], "single@%d" % k,
+                     case.get("log_level"), case.get("prev_strategy"))
             runs += 1
             if interesting(seq):
                 out.nontrivial = True
@@ -179,7 +191,8 @@ def run_case(case):
     else:
         seqs = sorted({executed[i % len(executed)] for i in case["fault_idx"]})
         prog["faults"] = seqs
-        _one_run(out, prog, case["strategy"], case["drive"], case["cuts"], case["mix"], "subset")
+        _one_run(out, prog, case["strategy"], case["drive"], case["cuts"], case["mix"], "subset",
+                 case.get("log_level"), case.get("prev_strategy"))
         runs = 1
         if any(interesting(s) for s in seqs):
             out.nontrivial = True
